@@ -476,6 +476,13 @@ fn rejected<C: Suite>(ctx: &mut Ctx, g0: &Grp<C>, rem: &[Identifier<C>], outside
                     let (_, out) = C::api_refresh_dkg_part2(s1[j].clone(), &ib)?;
                     r2.insert(*j, out[&me].clone());
                 }
+                // the same with the group's public key package in its older form, which records no threshold: the
+                // participant's own key package still does
+                let legacy = PublicKeyPackage::<C>::new(g0.pkp.verifying_shares().clone(), *g0.pkp.verifying_key(), None);
+                match C::api_refresh_dkg_shares(&sec2, &r1, &r2, legacy, g0.kps[&me].clone()) {
+                    Err(e) => ctx.count(&format!("rejected/threshold-change-legacy-package/{}", err_name(&e))),
+                    Ok(_) => ctx.viol("bad-refresh-accepted", "dkg/threshold-change/legacy-public-key-package", d(&format!("distributed refresh with threshold {t2} accepted when the old public key package records no threshold"))),
+                }
                 C::api_refresh_dkg_shares(&sec2, &r1, &r2, g0.pkp.clone(), g0.kps[&me].clone())
             });
             match res {
